@@ -579,6 +579,39 @@ class FSFile:
         self.close()
 
 
+class _PathShim:
+    def __init__(self, fs, real):
+        self._fs, self._real = fs, real
+
+    def isfile(self, p):
+        if p in self._fs.files:
+            return True
+        return False
+
+    exists = isfile
+
+    def __getattr__(self, n):
+        return getattr(self._real, n)
+
+
+class _OsShim:
+    """`os` as seen by OSUtils.rename_file: the fake file system answers isfile / exists / remove, the rest is os"""
+
+    def __init__(self, fs, osutil, real):
+        self._fs, self._osutil, self._real = fs, osutil, real
+        self.path = _PathShim(fs, real.path)
+
+    def remove(self, p):
+        idx = self._fs.op('remove', p)
+        self._fs.files.pop(p, None)
+        self._fs.done('remove', idx)
+
+    unlink = remove
+
+    def __getattr__(self, n):
+        return getattr(self._real, n)
+
+
 def make_osutils(fs, src_size=None, env=None):
     """FakeOSUtils subclassing the real OSUtils (only the OS-touching methods are replaced)"""
     from s3transfer.utils import OSUtils
@@ -610,7 +643,8 @@ def make_osutils(fs, src_size=None, env=None):
             fs.files.pop(filename, None)
             fs.done('remove', idx)
 
-        def rename_file(self, cur, new):
+        def _prim_rename(self, cur, new):
+            # the OS primitive (compat.rename_file = os.replace semantics: atomic, replaces an existing name)
             idx = fs.op('rename', cur)
             if cur not in fs.files:
                 raise OSError('rename: no such file')
@@ -618,6 +652,18 @@ def make_osutils(fs, src_size=None, env=None):
             if new == fs.dest:
                 fs.renamed = True
             fs.done('rename', idx)
+
+        def rename_file(self, cur, new):
+            # the REAL OSUtils.rename_file runs; only what it reaches in the OS is replaced: the module-level
+            # rename_file primitive and an `os` whose path.isfile / path.exists / remove answer from the fake FS
+            import s3transfer.utils as U
+            old_r, old_os = U.rename_file, U.os
+            U.rename_file = self._prim_rename
+            U.os = _OsShim(fs, self, old_os)
+            try:
+                OSUtils.rename_file(self, cur, new)
+            finally:
+                U.rename_file, U.os = old_r, old_os
 
         def is_special_file(self, filename):
             return fs is not None and filename in fs.special
